@@ -7,3 +7,5 @@ import SsqlVerif.Props.C08
 #print axioms C08.earliest_start_before_advance
 #print axioms C08.pass_done
 #print axioms C08.late_extension_coincides
+#print axioms C08.redelivered_row_stays_buffered
+#print axioms C08.late_row_in_current_slot_stays_buffered
